@@ -75,6 +75,20 @@ pub fn fixed_programs() -> Vec<FixedProg> {
             lines: vec![head, "20 GOSUB 100: PRINT \"r\";W;Y: END", "100 IF Y THEN INPUT W ELSE PRINT \"no\"", "110 RETURN"],
             replies: vec!["8"],
         },
+        // the frame stack is full when the inner statements run: an inspection that calls a
+        // function is refused there and must leave nothing behind
+        FixedProg {
+            name: "32 frames held",
+            lines: {
+                let mut l: Vec<&'static str> = vec![head, "100 GOSUB 101: PRINT \"e\";X;Y: END"];
+                for n in 101..=131u32 {
+                    l.push(Box::leak(format!("{} GOSUB {}: RETURN", n, n + 1).into_boxed_str()));
+                }
+                l.push("132 PRINT X;: PRINT Y;: X=X+1: RETURN");
+                l
+            },
+            replies: vec![],
+        },
     ]
 }
 
